@@ -59,6 +59,7 @@ type Term struct {
 	Bound []*Term
 	// hasBound: term mentions a bound variable (cannot be hoisted)
 	hasBound bool
+	fv       []*Term // free bound variables
 }
 
 // Ctx owns the intern table, the sorts and the declarations of one
@@ -156,14 +157,37 @@ func (c *Ctx) mk(t *Term) *Term {
 	}
 	c.nextID++
 	t.id = c.nextID
-	for _, a := range t.Args {
-		if a.hasBound {
-			t.hasBound = true
+	// free bound variables (hasBound = the term is not closed)
+	switch {
+	case t.Op == "bvar":
+		t.fv = []*Term{t}
+	default:
+		var fv []*Term
+		seen := map[*Term]bool{}
+		for _, a := range t.Args {
+			for _, v := range a.fv {
+				if !seen[v] {
+					seen[v] = true
+					fv = append(fv, v)
+				}
+			}
 		}
+		if (t.Op == "forall" || t.Op == "exists") && len(fv) > 0 {
+			bound := map[*Term]bool{}
+			for _, b := range t.Bound {
+				bound[b] = true
+			}
+			var rest []*Term
+			for _, v := range fv {
+				if !bound[v] {
+					rest = append(rest, v)
+				}
+			}
+			fv = rest
+		}
+		t.fv = fv
 	}
-	if t.Op == "bvar" {
-		t.hasBound = true
-	}
+	t.hasBound = len(t.fv) > 0
 	c.terms[k] = t
 	return t
 }
@@ -543,6 +567,10 @@ func (c *Ctx) Select(arr, idx *Term) *Term {
 		if e.IsFalse() {
 			return c.Select(arr.Args[0], idx)
 		}
+		if c.Reindex && idx.IsLit() {
+			// read at a literal position over a write at a symbolic one: make the case split explicit
+			return c.Ite(e, arr.Args[2], c.Select(arr.Args[0], idx))
+		}
 	}
 	if arr.Op == "constarr" {
 		return arr.Args[0]
@@ -567,13 +595,16 @@ func (c *Ctx) expandSelect(t *Term) *Term {
 		a = a.Args[0]
 		n++
 	}
-	if n == 0 || n > 8 || a.Op != "constarr" {
+	if n == 0 || n > 8 {
 		return t
 	}
 	var build func(a *Term) *Term
 	build = func(a *Term) *Term {
 		if a.Op == "constarr" {
 			return a.Args[0]
+		}
+		if a.Op != "store" {
+			return c.mk(&Term{Op: "select", Args: []*Term{a, idx}, Sort: a.Sort.Elem})
 		}
 		return c.Ite(c.Eq(a.Args[1], idx), a.Args[2], build(a.Args[0]))
 	}
